@@ -21,6 +21,7 @@ def report_defs(rng, k, scen_ids=()):
     then those of that scenario).  Returns (text, {report id: scenario id or None})."""
     out = []
     which = {}
+    fmts = {}
     for i in range(k):
         cols = rng.choice(COLSETS)
         lines = ['taskreport rep%d "rep%d" {' % (i, i), "  formats json, csv", "  columns " + ", ".join(cols)]
@@ -28,13 +29,17 @@ def report_defs(rng, k, scen_ids=()):
         if scen_ids and rng.random() < 0.7:
             which["rep%d" % i] = rng.choice(list(scen_ids))
             lines.append("  scenarios %s" % which["rep%d" % i])
+        fmts["rep%d" % i] = None
         if rng.random() < 0.8:
-            lines.append('  timeformat "%s"' % rng.choice(FORMATS))
+            fmts["rep%d" % i] = rng.choice(FORMATS)        # the report's own format is the effective one, whatever it looks like
+            lines.append('  timeformat "%s"' % fmts["rep%d" % i])
         if rng.random() < 0.4:
             lines.append("  leaftasksonly true")
+        if rng.random() < 0.3:
+            lines.append("  hidetask @none")               # hide nothing: every task has its row
         lines.append("}")
         out.append("\n".join(lines))
-    return "\n".join(out) + "\n", which
+    return "\n".join(out) + "\n", which, fmts
 
 
 def check(prop, tier, replay=None):
@@ -66,8 +71,10 @@ def check(prop, tier, replay=None):
                 for t in p.tasks:
                     if not t.kids and t.effort and rng.random() < 0.6:
                         t.scen["delayed"] = {"effort": t.effort * rng.choice([2, 3]) if rng.random() < 0.7 else max(p.G, t.effort // 2 // p.G * p.G)}
-            p.extra, which = report_defs(rng, 3, scen_ids)
-            jobs.append({"id": "C18-" + pid, "text": p.render(), "report_scenario": which, "rates": gen.effective_rates(p)})
+            p.extra, which, fmts = report_defs(rng, 3, scen_ids)
+            # the effective time format by the generator: the report's own, else the one the project header declares
+            jobs.append({"id": "C18-" + pid, "text": p.render(), "report_scenario": which, "rates": gen.effective_rates(p),
+                         "report_fmt": {k: (v or "%Y-%m-%d %H:%M") for k, v in fmts.items()}})
     if replay:
         jobs = [json.load(open(replay))]
     with scratch_build() as scr:
